@@ -1,6 +1,6 @@
 //! C11: bfs / girth / local girth of the real code on exhaustive small graphs and seeded random graphs
 //! in the classes of the quantifier. Results only; the verdict is TLC's (Tanner.tla).
-use crate::c02::sparse_from_rows;
+use crate::c02::sparse_row_major as sparse_from_rows;
 use crate::util::*;
 use ldpc_toolbox::sparse::{Node, SparseMatrix};
 use serde_json::json;
